@@ -3,7 +3,7 @@
    PARTIAL by nature: the wall-clock bound of the poll (MP_STATUS_CHECK_INTERVAL), SIGCHLD delivery, is_alive() and the
    state of the pipes after SIGKILL are runtime behaviour; the model assumes a dead worker answers nothing further and
    that the poll's is_alive() test is accurate.  The real-SIGKILL correspondence run covers the runtime side. *)
-From PD Require Import Base SdlModel SdlFault SdlIterRef SdlIterProofs SdlIterResume.
+From PD Require Import Base SdlModel SdlFault SdlProofs SdlMapProofs SdlIterRef SdlIterProofs SdlIterResume.
 Open Scope nat_scope.
 
 (* never ends the epoch early as if complete: for every configuration, every state, every fault schedule (deaths and
